@@ -729,7 +729,8 @@ def mon_C09(case):
             for u, s in row.get(kind, {}).items():
                 ps = prow.get(kind, {}).get(u) if prow else None
                 changed = ps is None or (ps["r"], ps["v"]) != (s["r"], s["v"])
-                if changed and not s["deleted"] and not (0 <= s["r"] <= s["v"] <= row["seq"]):
+                # (a restart brings back what the database held at the crash point: a state which was checked when it was written)
+                if changed and w[0] != "restart" and not s["deleted"] and not (0 <= s["r"] <= s["v"] <= row["seq"]):
                     if (w[0] == "note" and len(w) > 3 and w[3] == "read" and ln.calls == ["SubsUpdate"] and 0 <= s["v"] < s["r"] <= row["seq"]
                             and ps is not None and ps["v"] == s["v"]):
                         out.append((i, f"C09 [read-raises-recv] a read note stored read={s['r']} for {u} on {t} and left the stored recv={s['v']} behind"))
